@@ -520,6 +520,11 @@ var builtinSmtFuns = map[string]*SmtFun{
 	"rank":  {Name: "rank", Args: []string{"Val"}, Ret: "Int"},
 	"isnan": {Name: "isnan", Args: []string{"Val"}, Ret: "Bool"},
 	"wfval": {Name: "wfval", Args: []string{"Val"}, Ret: "Bool"},
+	"cdirf":     {Name: "cdirf", Args: []string{"String", "String"}, Ret: "String"},
+	"opathf":    {Name: "opathf", Args: []string{"String", "String", "String", "Bool"}, Ret: "String"},
+	"spathf":    {Name: "spathf", Args: []string{"String"}, Ret: "String"},
+	"vtag":      {Name: "vtag", Args: []string{"Val"}, Ret: "Int"},
+	"vpay":      {Name: "vpay", Args: []string{"Val"}, Ret: "Int"},
 	"dyntype":   {Name: "dyntype", Args: []string{"Int"}, Ret: "Int"},
 	"norm":      {Name: "norm", Args: []string{"Val"}, Ret: "Val"},
 	"normable":  {Name: "normable", Args: []string{"Val"}, Ret: "Bool"},
@@ -754,6 +759,22 @@ func (c *evalCtx) call(x *ast.CallExpr) tval {
 		return tval{A, gt}
 	case "trig":
 		return tval{mk(SBool, "(trg %s)", c.term(arg(0)).S), tBool}
+	case "upd":
+		// upd(a, k, v): the ghost array a with a[k] := v
+		a := c.eval(arg(0))
+		at, ok := a.V.(Term)
+		if !ok || !c.r.v.ghostArrays[a.T] {
+			c.fail("upd expects a ghost array")
+		}
+		return tval{Term{S: "(store " + at.S + " " + c.term(arg(1)).S + " " + c.term(arg(2)).S + ")", Sort: at.Sort}, a.T}
+	case "hasSuffix":
+		return tval{mk(SBool, "(str.suffixof %s %s)", c.term(arg(1)).S, c.term(arg(0)).S), tBool}
+	case "asobj":
+		// asobj(e): the reference e viewed as a value of the interface type Object
+		t := c.parseType("Object")
+		return tval{c.term(arg(0)), t}
+	case "tagof":
+		return tval{typeTag(c.parseType(exprString(arg(0)))), tInt}
 	case "touch":
 		// touch(s[i]): true; mentions the element access so that it can serve as a trigger
 		ix, ok := arg(0).(*ast.IndexExpr)
